@@ -35,6 +35,7 @@ def tasks(tier):
     t += [('std', k) for k in ('solid', 'liquid', 'enzyme', 'container')]
     t += [('line', 'init', k, u) for k, u in ((1, 'g'), (1, 'mmol'), (2, 'mL'), (2, 'g'), (3, 'U'), (3, 'mg'))]
     t += [('line', 'transfer', k, u) for k in ('liquid', 'solid', 'mixed') for u in ('mL', 'mg', 'mmol')]
+    t += [('line', 'transfer', k, u) for k in ('solid+enzyme', 'enzyme') for u in ('mg', 'U')]     # liquid-free sources holding an enzyme
     t += [('line', 'fill_to', 2, u) for u in ('mL', 'g', 'mol')]
     t += [('line', 'dilute', 1, 'mol/L'), ('line', 'dilute', 2, 'g/g')]
     t += [('line', 'create_from', 1, 'mL'), ('line', 'create_from', 1, 'g')]
@@ -261,7 +262,7 @@ def run_line(op, k, unit):
                          'the constructor line states the amount added')
             return out
         if op == 'transfer':
-            kinds = {'liquid': [2], 'solid': [1], 'mixed': [2, 1]}[k]
+            kinds = {'liquid': [2], 'solid': [1], 'mixed': [2, 1], 'solid+enzyme': [1, 3], 'enzyme': [3]}[k]
             keys = [z3.Const(f's{i}', Sub) for i in range(len(kinds))]
             assume_distinct(I, keys)
             for s, kk in zip(keys, kinds):
